@@ -118,11 +118,12 @@ class Algebra:
         t0 = time.time()
         P = s.residual(lhs, rhs)
         dt_alg = time.time() - t0
-        cons = s.definitions() + list(domain) + list(s.side) + [s.poly_z3(P) != 0]
+        cons = s.definitions() + list(domain) + list(s.side)
+        goal = [s.poly_z3(P) != 0]
         d = dict(detail or {}); d.update({'residual_terms': P.nterms(), 'radicals': len(s.ctx.rad), 'atoms': len(s.ctx.atom), 'normalise_s': round(dt_alg, 3)})
         probe = None
         if probe_free:
             # triviality probe: the reported quantity replaced by a free symbol -> must be satisfiable
             fr = z3.Real('free!' + str(len(ck.obl)))
             probe = s.definitions() + list(domain) + [fr != s.rf_z3(rhs)]
-        return smt.prove(ck, name, cons, [], timeout_s, probe=probe, detail=d)
+        return smt.prove(ck, name, cons, goal, timeout_s, probe=probe, detail=d)
